@@ -374,6 +374,66 @@ pub fn run(rep: &mut Report, thorough: bool) {
             );
             rep.stage(&format!("stun-nonrequest-tcp-{}", tag), "[>=256-byte Binding request] then every message-type word with a non-request class (49152) x {20-byte, 28-byte} on the same TCP connection", types.len() as u64 * 2, t0);
         }
+        // reply-typed messages of every protocol x every 16-bit word position (both alignments) x
+        // a value set (0..511, multiples of 256 +-, edge values, both byte orders): no other field
+        // of a reply-typed message (a status word, an id, a count) makes it look like a request
+        {
+            let mut h1 = Smb1Hdr::new(0x72);
+            h1.flags = 0x98;
+            let mut h1s = Smb1Hdr::new(0x73);
+            h1s.flags = 0x80;
+            let mut h2 = Smb2Hdr::new(0);
+            h2.flags = 1;
+            let mut h2s = Smb2Hdr::new(1);
+            h2s.flags = 1;
+            let mut stun_resp = stun_magic(&[], &ID12);
+            stun_resp[0] = 0x01;
+            stun_resp[1] = 0x01;
+            let mut stun_ind = stun_classic(&stun_attr(3, &[0, 0, 0, 2]), &ID16);
+            stun_ind[0] = 0x00;
+            stun_ind[1] = 0x11;
+            let mut rpc_reply = Vec::new();
+            for w in [0x72fe1d13u32, 1, 2, 100000, 2, 3, 0, 0, 0, 0] {
+                rpc_reply.extend_from_slice(&w.to_be_bytes());
+            }
+            let bases: Vec<(&'static str, Vec<u8>)> = vec![
+                ("dns", appdns::build_query(0x4242, 0x8180, &[(dns_labels("a.bc"), 1, 1)])),
+                ("stun", stun_resp),
+                ("stun", stun_ind),
+                ("smb1", appsmb::smb1_negotiate(&h1, &["NT LM 0.12"])),
+                ("smb1", appsmb::smb1_session_setup(&h1s, &[1, 2, 3, 4])),
+                ("smb2", appsmb::smb2_negotiate(&h2, &[0x0202, 0x0311], &[5; 16])),
+                ("smb2", appsmb::smb2_session_setup(&h2s, &[7; 8])),
+                ("rpc", rpc_reply),
+            ];
+            let mut vals: Vec<u16> = (0..512u16).collect();
+            for k in 0..256u16 {
+                vals.push(k << 8);
+                vals.push((k << 8) | 0xff);
+            }
+            vals.extend(crate::deviate::EDGE16.iter().map(|v| *v as u16));
+            let sw: Vec<u16> = vals.iter().map(|v| v.swap_bytes()).collect();
+            vals.extend(sw);
+            vals.sort();
+            vals.dedup();
+            let nv = vals.len() as u64;
+            for (bi, (ptag, base)) in bases.iter().enumerate() {
+                let np = base.len() as u64 - 1;
+                let b = base.clone();
+                let vv = vals.clone();
+                let is_dns = *ptag == "dns";
+                strict_sweep(rep, &format!("reply-typed-words-{}-{}-{}", ptag, bi, tag), "one reply-typed message x every 16-bit word position (both alignments) x 1300 values, as a datagram", np * nv, ptag, &move |i| {
+                    let mut m = b.clone();
+                    let p = (i / nv) as usize;
+                    let v = vv[(i % nv) as usize];
+                    m[p] = (v >> 8) as u8;
+                    m[p + 1] = v as u8;
+                    // (DNS over IPv4 only: a mutation that clears QR makes a real query, and what an
+                    // A question gets over IPv6 is a corner the reference abstains on)
+                    flow(i % 2 == 1 && !is_dns, 40000, 445).udp(&m)
+                });
+            }
+        }
         if thorough {
             // deep stages
             let dims = [65535u64, 2, 2, 2];
